@@ -5,6 +5,7 @@ import (
 	"context"
 	stderrors "errors"
 	"fmt"
+	"strings"
 	"time"
 
 	"github.com/ThreeDotsLabs/watermill/components/delay"
@@ -159,13 +160,25 @@ func pubStackScenario(depth int) *explore.Scenario {
 
 var subLayers = []string{"transform", "metrics", "metrics2"}
 
-func subStackScenario(depth int, c int) *explore.Scenario {
+func subStackScenario(depth int, c int) *explore.Scenario { return subStackScenarioX(depth, c, nil) }
+
+// fixed: the layers are given (outermost last) instead of chosen: schedules of one particular stack
+func subStackScenarioX(depth int, c int, fixed []string) *explore.Scenario {
 	name := fmt.Sprintf("subscriber-stack/depth%d", depth)
+	if fixed != nil {
+		name = "subscriber-stack/" + strings.Join(fixed, "+")
+	}
 	if c >= 0 {
 		name += fmt.Sprintf("/c%d", c)
 	}
-	return &explore.Scenario{Name: name, C: c, DataOnly: c < 0, Body: func() {
-		n := 1 + vs.Choose(3, 0, "messages")
+	// (fixed stacks: a goroutine's first instructions run when it is first scheduled, not at the go statement - what the
+	// counting goroutines read and write before their first wait is part of the interleaving)
+	return &explore.Scenario{Name: name, C: c, DataOnly: c < 0, Opts: vs.Options{LazyStart: fixed != nil}, Body: func() {
+		maxN := 3
+		if fixed != nil {
+			maxN = 2
+		}
+		n := 1 + vs.Choose(maxN, 0, "messages")
 		var script []*message.Message
 		for i := 0; i < n; i++ {
 			script = append(script, hx.Msg(fmt.Sprintf("m%d", i)))
@@ -174,11 +187,19 @@ func subStackScenario(depth int, c int) *explore.Scenario {
 		reg := prometheus.NewRegistry()
 		mb := metrics.NewPrometheusMetricsBuilder(reg, "ns", "sub")
 		var sub message.Subscriber = inner
-		k := 1 + vs.Choose(depth, 0, "stack depth")
+		k := len(fixed)
+		if fixed == nil {
+			k = 1 + vs.Choose(depth, 0, "stack depth")
+		}
 		stack := ""
 		nMetrics := 0
 		for i := 0; i < k; i++ {
-			l := subLayers[vs.Choose(len(subLayers), 0, "layer")]
+			var l string
+			if fixed != nil {
+				l = fixed[i]
+			} else {
+				l = subLayers[vs.Choose(len(subLayers), 0, "layer")]
+			}
 			stack = l + ">" + stack
 			var err error
 			if l == "transform" {
@@ -570,6 +591,14 @@ func init() {
 	add(reg.Quick, 10, func(t reg.Tier) *explore.Scenario { return subStackScenario(2, -1) })
 	add(reg.Thorough, 30, func(t reg.Tier) *explore.Scenario { return subStackScenario(3, -1) })
 	add(reg.Quick, 20, func(t reg.Tier) *explore.Scenario { return subStackScenario(1, 0) })
+	// the metrics decorator applied twice: every schedule without preemptions of the two pumps and their counting goroutines
+	add(reg.Quick, 20, func(t reg.Tier) *explore.Scenario {
+		if t == reg.Thorough {
+			return subStackScenarioX(2, 1, []string{"metrics", "metrics"})
+		}
+		return subStackScenarioX(2, 0, []string{"metrics", "metrics"})
+	})
+	add(reg.Thorough, 20, func(t reg.Tier) *explore.Scenario { return subStackScenarioX(2, 0, []string{"transform", "metrics2"}) })
 	add(reg.Quick, 5, func(t reg.Tier) *explore.Scenario { return delayScenario() })
 	add(reg.Quick, 10, func(t reg.Tier) *explore.Scenario { return handlerMetricsScenario(-1) })
 }
